@@ -43,13 +43,34 @@ func pairSelectors() []string {
 			sels = append(sels, fmt.Sprintf("foo{%s,%s}", ms[i], ms[j]))
 		}
 	}
+	// the metric name given as a matcher of every type, alone and with another matcher
+	for _, t := range types {
+		for _, v := range []string{"foo", "foo|bar"} {
+			if (t == "=" || t == "!=") && v != "foo" {
+				continue
+			}
+			nm := fmt.Sprintf(`__name__%s"%s"`, t, v)
+			sels = append(sels, fmt.Sprintf("{%s}", nm), fmt.Sprintf(`{%s,a="x"}`, nm), fmt.Sprintf(`{%s,b!=""}`, nm), fmt.Sprintf(`{a="x",%s,b=~"x|y"}`, nm))
+		}
+	}
 	return sels
+}
+
+// swapMetric: the same selector on the other metric
+func swapMetric(sel string) string {
+	r := strings.NewReplacer("foo", "\x00", "bar", "foo")
+	return strings.ReplaceAll(r.Replace(sel), "\x00", "bar")
 }
 
 var pairTemplates = []string{
 	"(%s) / (%s)", "(%s) + on (a) group_left (%s)", "sum(%s) / sum(%s)", "abs(%s) - (%s)", "(%s) * ignoring (b) (%s)",
 	"rate(%s[1m]) / rate(%s[1m])", "sum by (a) (%s) + sum by (a) (%s)", "(%s) - (%s)", "(%s) > (%s)", "(%s) / on () group_left (%s)",
 	"-(%s) + (%s)", "clamp_min(%s, 1) / (%s)",
+	// bare operands: a pinned selector is then itself the step-invariant expression, which is the
+	// only position in which the rewrites reach below a StepInvariantExpr
+	"%s / %s", "%s - on (a, b) %s", "%s + ignoring (b) group_left %s",
+	// the same pair on both metrics in one query
+	"sum(%[1]s) / sum(%[2]s) + sum(%[3]s) / sum(%[4]s)", "(%[1]s) / (%[2]s) - (%[4]s) / (%[3]s)",
 }
 
 func pairQuery(r *rand.Rand, idx int) string {
@@ -61,8 +82,72 @@ func pairQuery(r *rand.Rand, idx int) string {
 	if strings.Contains(t, "[1m]") {
 		return fmt.Sprintf(t, a, b)
 	}
+	mods := []string{" offset 30s", " @ 700", " offset -15s", " @ 300", " offset 10m", " @ 300 offset -1m"}
 	if r.Intn(3) == 0 {
-		a += pick(r, []string{" offset 30s", " @ 700", " offset -15s"})
+		a += pick(r, mods)
+	}
+	if r.Intn(5) == 0 {
+		b += pick(r, mods)
+	}
+	if strings.Contains(t, "%[3]s") {
+		return fmt.Sprintf(t, a, b, swapMetric(a), swapMetric(b))
+	}
+	return fmt.Sprintf(t, a, b)
+}
+
+// subpairQuery: pairs in which one selector's matchers are a subset of the other's (the pairs the
+// select-merging rewrite acts on), with modifiers on either, the metric name as a label or as a
+// matcher, in templates that put the selectors in every position; a quarter of the queries repeat
+// the pair on the other metric.
+func subpairQuery(r *rand.Rand) string {
+	keys := []string{"a", "b"}
+	types := []string{"=", "!=", "=~", "!~"}
+	vals := []string{"x", "", "x|y", "y"}
+	n := 1 + r.Intn(3)
+	var ms []string
+	for i := 0; i < n; i++ {
+		ms = append(ms, fmt.Sprintf(`%s%s"%s"`, pick(r, keys), pick(r, types), pick(r, vals)))
+	}
+	var sub []string
+	for _, m := range ms {
+		if r.Intn(2) == 0 {
+			sub = append(sub, m)
+		}
+	}
+	if len(sub) == len(ms) {
+		sub = sub[:len(sub)-1]
+	}
+	name := pick(r, []string{"foo", "bar"})
+	render := func(ms []string) string {
+		if r.Intn(4) == 0 {
+			all := append([]string{fmt.Sprintf(`__name__="%s"`, name)}, ms...)
+			r.Shuffle(len(all), func(i, j int) { all[i], all[j] = all[j], all[i] })
+			return "{" + strings.Join(all, ",") + "}"
+		}
+		if len(ms) == 0 {
+			return name
+		}
+		return name + "{" + strings.Join(ms, ",") + "}"
+	}
+	a, b := render(ms), render(sub)
+	mods := []string{" offset 30s", " @ 700", " offset -15s", " @ 300", " offset 10m", " @ 300 offset -1m", " @ 1500", " @ start()", " @ end() offset 5m"}
+	t := pick(r, pairTemplates)
+	if r.Intn(3) == 0 {
+		t = pick(r, []string{"%s / %s", "%s - on (a, b) %s", "%s + ignoring (b) group_left %s"})
+	}
+	if !strings.Contains(t, "[1m]") {
+		if r.Intn(2) == 0 {
+			a += pick(r, mods)
+		}
+		if r.Intn(4) == 0 {
+			b += pick(r, mods)
+		}
+	}
+	if r.Intn(2) == 0 {
+		a, b = b, a
+	}
+	if strings.Contains(t, "%[3]s") {
+		return fmt.Sprintf(t, a, b, swapMetric(a), swapMetric(b))
 	}
 	return fmt.Sprintf(t, a, b)
 }
@@ -84,7 +169,7 @@ func pairData(w Window) []SeriesData {
 					kv = append(kv, "b", b)
 				}
 				var smp []Sample
-				for t := w.Start - 400_000; t <= w.End+10_000; t += 20_000 {
+				for t := w.Start - 900_000; t <= w.End+10_000; t += 20_000 {
 					smp = append(smp, Sample{T: t + int64(i), V: float64(1+i) + float64((t/20_000)%5)/4})
 				}
 				out = append(out, SeriesData{Labels: labelsFromKV(kv), Samples: smp})
